@@ -19,6 +19,9 @@ enum class DubinsSegment { Left, Straight, Right };
 /// @brief Three DubinsSegment with given lengths
 using DubinsDescription = std::array<std::pair<DubinsSegment, double>, 3>;
 
+/// @brief Relative tolerance for deciding that two turning circles touch
+inline constexpr double dubins_touch_tol = 1e-12;
+
 /// @brief Positive angular distance between two poses for given turning direction
 inline double dubins_angle(const smooth::SO2d & x1, const smooth::SO2d & x2, DubinsSegment s)
 {
@@ -46,13 +49,13 @@ inline std::array<double, 3> dubins_ccc(const smooth::SE2d & target, double R, D
     return {dubins_angle(smooth::SO2d::Identity(), target.so2(), c13), 0, 0};
   }
 
-  if (4 * R <= d13) {
-    // infeasible case
+  if (4 * R * (1 + dubins_touch_tol) < d13) {
+    // infeasible case (circles that touch within rounding are feasible: the middle arc has length 0 or pi)
     return {inf, inf, inf};
   }
 
   // positive angle between lines C1-C3 and C1-C2
-  smooth::SO2d A_13_12 = smooth::SO2d(std::sqrt(1. - d13 * d13 / (16 * R * R)), d13 / (4 * R));
+  smooth::SO2d A_13_12 = smooth::SO2d(std::sqrt(std::max(0., 1. - d13 * d13 / (16 * R * R))), std::min(1., d13 / (4 * R)));
 
   // positive angle between lines C1-C2 and C3-C2 (180 - 2 * A_13_12)
   smooth::SO2d A_12_32 = smooth::SO2d(pi) * A_13_12.inverse() * A_13_12.inverse();
@@ -104,10 +107,11 @@ inline std::array<double, 3> dubins_csc(const smooth::SE2d & target, double R, D
   smooth::SO2d theta(C1_C3.y(), C1_C3.x());
 
   if (c1 != c3) {
-    if (d13 <= 2 * R) { return {inf, inf, inf}; }
+    // infeasible if the circles overlap (circles that touch within rounding are feasible: straight part of length 0)
+    if (d13 < 2 * R * (1 - dubins_touch_tol)) { return {inf, inf, inf}; }
 
     // positive angle between C1 -> C3 and line between tangent points
-    smooth::SO2d diff(2 * R / d13, std::sqrt(1. - 4 * R * R / (d13 * d13)));
+    smooth::SO2d diff(std::min(1., 2 * R / d13), std::sqrt(std::max(0., 1. - 4 * R * R / (d13 * d13))));
 
     if (c1 == DubinsSegment::Right && c3 == DubinsSegment::Left) {
       theta *= diff.inverse();  // Right -> Left: subtract from nominal for later exit
